@@ -50,8 +50,26 @@ type RunResult struct {
 func Execute(t *testing.T, tr *Trace, gen *Gen, prop string, bubble bool) *RunResult {
 	start := time.Now()
 	var w *World
+	// a replica on goleveldb uses real files: such runs execute outside the bubble (real I/O does
+	// not belong in one) on a scratch directory that is removed when the run ends
+	scratch := ""
+	for _, nc := range tr.Knobs.Nodes {
+		if nc.Backend == "goleveldb" {
+			bubble = false
+			if scratch == "" {
+				base := os.Getenv("VERIF_SCRATCH")
+				d, err := os.MkdirTemp(base, "simnet-ldb-")
+				if err != nil {
+					t.Fatalf("scratch directory: %v", err)
+				}
+				scratch = d
+				defer os.RemoveAll(d)
+			}
+		}
+	}
 	body := func() {
 		w = NewWorld(tr, MonitorsFor(prop))
+		w.scratch = scratch
 		w.Gen = gen
 		w.InBubble = bubble
 		w.StopOnViolation = true
